@@ -77,6 +77,10 @@ def run(tier, seed, ev):
     ev.set("impl_long_buffers", j["cases"])
     if rc:
         bad.append(("long", j))
+    rc, j = _drv(drv, "words", tabf)
+    ev.set("impl_structured_buffers", j["cases"])
+    if rc:
+        bad.append(("words", j))
     # ---- validation: recorded executions against the spec ---------------------------------
     tr = os.path.join(sc, "trace.ndjson")
     n_exec = 150 if tier == "quick" else 1500
